@@ -347,6 +347,7 @@ func generate(f *rep.Flags, bounds map[string]any, emit func(*Case)) {
 	maxP, maxC := 2, 5
 	if f.Thorough() {
 		maxP, maxC = 3, 7
+		maxN = 24
 	}
 	var vec func(n int, cur []int, fn func([]int))
 	vec = func(n int, cur []int, fn func([]int)) {
@@ -365,6 +366,51 @@ func generate(f *rep.Flags, bounds map[string]any, emit func(*Case)) {
 					out(&Case{Family: "vectors", Pods: ps, Ctrs: cs, SpareCap: (len(ps)+len(cs))%2 == 0, Handler: "sync"})
 				})
 			})
+		}
+	}
+	if f.Thorough() {
+		// four sizes (one just below the limit) for fewer objects
+		vs4 := []int{10, 600 << 10, 2100 << 10, 4000 << 10}
+		var vec4 func(n int, cur []int, fn func([]int))
+		vec4 = func(n int, cur []int, fn func([]int)) {
+			if len(cur) == n {
+				fn(append([]int(nil), cur...))
+				return
+			}
+			for _, v := range vs4 {
+				vec4(n, append(cur, v), fn)
+			}
+		}
+		for p := 0; p <= 2; p++ {
+			for c := 0; c <= 5; c++ {
+				vec4(p, nil, func(ps []int) {
+					vec4(c, nil, func(cs []int) {
+						out(&Case{Family: "vectors4", Pods: ps, Ctrs: cs, SpareCap: (len(ps)+len(cs))%2 == 1, Handler: "sync"})
+					})
+				})
+			}
+		}
+	}
+	// objects sized around limit/n: n of them just fit / just do not fit into one message
+	maxK := 16
+	if f.Thorough() {
+		maxK = 48
+	}
+	for n := 1; n <= maxK; n++ {
+		for _, d := range []int{-(limit / n / 50), -200, -64, -8, 0, 8, 64, 200, limit / n / 50} {
+			sz := limit/n + d
+			if sz < 1 || sz > 4100<<10 {
+				continue
+			}
+			for _, total := range []int{n - 1, n, n + 1, 2 * n, 2*n + 1} {
+				if total < 1 || (!f.Thorough() && total > 2*n) {
+					continue
+				}
+				for split := 0; split < 3; split++ {
+					np := []int{0, total, total / 2}[split]
+					out(&Case{Family: "near-limit", Pods: rep1(np, sz), Ctrs: rep1(total-np, sz), SpareCap: (n+split)%2 == 0, Handler: "sync"})
+				}
+			}
 		}
 	}
 	// large counts
